@@ -19,9 +19,9 @@
                                                r<off>:<len>  bytes of the stored capsule
                                                l<hex>        literal bytes
                                                x<off>:<mask> stored byte at off, xor mask (decimal)
-        → cur=<res> fix=<res>   res = ok <len> <fnv1a64 of the output, decimal> <rel> | err <kind>
-          cur: reader as at /repo HEAD, fix: reader with fixes/C29.diff;
+        → ok <len> <fnv1a64 of the output, decimal> <rel> | err <kind>      (reader with fixes/C29.diff)
           rel = same | prefix | other (output compared with the loaded file)
+     unlockcur <pw> <recipe>                 same, for the reader as it was before fixes/C29.diff
      hdr <hex64>                             → decodeHeader: ok <salt> <nonce> <size> <reserved> | err <kind>
 -/
 import MvModel.Capsule
@@ -152,9 +152,13 @@ def step (st : St) (ws : List String) : St × String :=
     match ofHexFast pw, (recipe.splitOn ",").mapM parsePiece with
     | some pw, some ps =>
       let c := applyPieces st.capsule ps
-      let cur := unlock false toyAead toyKdf pw c
-      let fix := unlock true toyAead toyKdf pw c
-      (st, s!"cur={showRes st.file cur} fix={showRes st.file fix}")
+      (st, showRes st.file (unlock true toyAead toyKdf pw c))
+    | _, _ => (st, "bad-op")
+  | ["unlockcur", pw, recipe] =>
+    match ofHexFast pw, (recipe.splitOn ",").mapM parsePiece with
+    | some pw, some ps =>
+      let c := applyPieces st.capsule ps
+      (st, showRes st.file (unlock false toyAead toyKdf pw c))
     | _, _ => (st, "bad-op")
   | ["hdr", h] =>
     match ofHexFast h with
